@@ -124,6 +124,10 @@ def handle : Handler
     let d ← decList data
     let sn ← decList snap
     pure (encL (keys (ctxLocals (d.map fun k => (k, Val.undefined)) (sn.map fun k => (k, Val.undefined)))))
+  | ["search", dirs, files, uri] => do
+    let ds ← decList dirs
+    let fs ← decList files
+    pure (encOpt encStr (lookupFile ds ds.reverse (fun f => fs.contains f) (← decStr uri)))
   | "registry" :: ops => runRegistry ops
   | "codehist" :: src :: mf :: ops => do
     -- `codehist <module_source|none> <module_filename|none> (w:<path>:<content> | q)*` : answers of every `q`
